@@ -10,10 +10,21 @@ t4.cooldowns, t2.lancedb.partitions, budgets, flags).  An input is ``{}`` plus a
   key   add, in the dict at one level of the tree, one special key (value 1): an unknown string key, a
         near-miss of an allowed key, or one of the non-string keys 5, None, ("a","b")
   root  replace the whole input by a non-dict root
+  echo  user-controlled TEXT that the validator echoes into its messages, carrying one member of the
+        text-layer alphabet ECHO: every line boundary of the Unicode text model (LF CR CRLF VT FF FS GS RS NEL LS PS),
+        the other separators that whitespace-splitting routines cut at (US TAB NBSP) and the metacharacters of
+        the two string-formatting mini-languages and of escape decoding ("{", "{0}", "%s", backslash-n).
+        As a key: at every dict level an unknown key with the member in its middle (value 1 and value -1, so
+        that free-key maps echo it too) and an allowed key with the member appended (the did-you-mean path);
+        as a value: every node set to the string "a<member>b" and to the one-element list of it.
+        Messages are one per line (LF-joined in the ConfigError text, one stdout line each in the CLI); a
+        shape that cuts or rewrites messages at any other code point no longer reports the same messages.
 
-quick: k <= 1 (every single deviation).   thorough: additionally every pair of *sibling* deviations (same parent
-dict, full alphabet x full alphabet), every pair of deviations below the same top-level section that are not
-siblings (reduced 8-value alphabet), and every single deviation x every value of ``version``.
+quick: k <= 1 (every single deviation; echo keys with all of ECHO, echo values with the 5 representatives ECHO_REPS).
+thorough: additionally every pair of *sibling* deviations (same parent dict, full alphabet x full alphabet), every pair of deviations below the same top-level section that are not
+siblings (reduced 8-value alphabet), every single deviation x every value of ``version``, echo values with the full
+ECHO alphabet, and every (allowed key + ECHO member) x every sibling node x the reduced alphabet (an echoed message
+next to a second message).
 
 Oracle, evaluated on every input (each API shape gets its own freshly built input object):
  (a) totality      only ConfigError may escape validate_config / validate_config_verbose; nothing may escape
@@ -22,7 +33,8 @@ Oracle, evaluated on every input (each API shape gets its own freshly built inpu
  (c) consistency   same verdict, same messages, same normalised config and same warnings through all shapes;
                    main(): exit code and stdout lines agree (also with --strict); a fixed subset goes through
                    the real CLI as subprocesses (script module, ``clematis validate -- --config F``,
-                   ``clematis validate --json``)
+                   ``clematis validate --json``); their stdout is read as bytes and cut at LF only (no
+                   universal-newline translation in the harness); four multi-key inputs carry all of ECHO
  (d) ranges        on an accepted input an independent table of the documented ranges / enumerations /
                    cross-field constraints holds on the normalised output (NaN fails every range)
  (e) runnable      for every distinct accepted normalised config, two real turns on the worlds W0/W1/W2
@@ -31,10 +43,11 @@ Oracle, evaluated on every input (each API shape gets its own freshly built inpu
                    only by the reduced-alphabet non-sibling pairs are checked for (a)-(d) only
 
 Signatures (every violation is minimised by dropping deviations first):
-  a:raises:<ExcType>:<key path | nonstr-key | unknown-key | nearmiss-key | root>
+  a:raises:<ExcType>:<key path | nonstr-key | unknown-key | nearmiss-key | echo-key | root>
   b:mutates-input:<top-level key of the mutated container | <root>>
   c:<shape>:raises-instead-of-returning     c:disagree:<shape>:<verdict|messages|normalized|warnings|exit-code|first-line>
   c:cli:<form>:<traceback|exit-code|first-line|messages|warnings|normalized|stdout-not-json>
+  (c: signatures of an input that carries ECHO text end in :echo-<line-boundary|whitespace|format>)
   d:range:<key path or cross-field constraint>:<nan|out-of-range>
   e:engine-raises:<default | key path(s) | nonstr-key@<level> (alone or mixed with string keys of that level)
                    | unknown-key@<level> | <level>.*>
@@ -85,14 +98,48 @@ VAL = {
     "dict-empty": lambda: {},
     "dict-k": lambda: {"k": 1},
 }
-VALUES = list(VAL)
+VALUES = list(VAL)  # the 17-value alphabet of the k-deviation enumeration (the echo values below are singles only)
 # reduced alphabet for the non-sibling pairs of the thorough tier (one representative per class)
 VALUES_REDUCED = ["null", "-1", "1", "0.5", "nan", "huge", "str-x", "dict-empty"]
 ROOT_VALUES = ["null", "true", "0", "1", "nan", "huge", "str-empty", "str-x", "list-empty", "list-1"]
 
 KEY_TOKENS = ["?unknown", "?near", "#5", "#null", "#tuple"]
-KEY_CLASS = {"?unknown": "unknown-key", "?near": "nearmiss-key", "?tie": "nearmiss-key", "#5": "nonstr-key", "#null": "nonstr-key",
-             "#tuple": "nonstr-key"}
+_KEY_CLASS = {"?unknown": "unknown-key", "?near": "nearmiss-key", "?tie": "nearmiss-key", "#5": "nonstr-key", "#null": "nonstr-key",
+              "#tuple": "nonstr-key"}
+
+# text-layer alphabet for user-controlled text that is echoed into messages (see module docstring, "echo")
+ECHO = {
+    # line boundaries of the Unicode text model (exactly the set str.splitlines / universal newlines know)
+    "lf": "\n", "cr": "\r", "crlf": "\r\n", "vt": "\x0b", "ff": "\x0c", "fs": "\x1c", "gs": "\x1d", "rs": "\x1e",
+    "nel": "\x85", "ls": "\u2028", "ps": "\u2029",
+    # further cut points of whitespace splitting / stripping
+    "us": "\x1f", "tab": "\t", "nbsp": "\xa0",
+    # metacharacters of str.format, %-formatting and escape decoding
+    "lbrace": "{", "fmt0": "{0}", "pct": "%s", "bsn": "\\n",
+}
+# representatives for the value forms in the quick tier: the message separator itself, an ASCII and a non-ASCII
+# line boundary that is not the separator, one metacharacter of each formatting mini-language
+ECHO_REPS = ["lf", "cr", "ls", "lbrace", "pct"]
+ECHO_CLASS = {}
+for _m in ("lf", "cr", "crlf", "vt", "ff", "fs", "gs", "rs", "nel", "ls", "ps"):
+    ECHO_CLASS[_m] = "line-boundary"
+for _m in ("us", "tab", "nbsp"):
+    ECHO_CLASS[_m] = "whitespace"
+for _m in ("lbrace", "fmt0", "pct", "bsn"):
+    ECHO_CLASS[_m] = "format"
+# clause (e) in the quick tier: accepted configs that carry an ECHO member run real turns for these members only
+ECHO_ENGINE_QUICK = ["cr", "lbrace", "pct"]
+ECHO_KEY_FORMS = [("?e:", None), ("?e:", "-1"), ("?en:", None)]   # (token prefix, value carried by the key)
+
+
+class _KeyClass:
+    def __getitem__(self, tok):
+        if tok.startswith("?e:") or tok.startswith("?en:"):
+            return "echo-key"
+        return _KEY_CLASS[tok]
+
+
+KEY_CLASS = _KeyClass()
 
 
 # ------------------------------------------------------------------------------------------------
@@ -173,6 +220,15 @@ TREE = _tree()
 NODES: List[Tuple[str, ...]] = sorted(p + (k,) for p, ks in TREE.items() for k in ks)
 
 
+def _echo_text(c: str) -> str:
+    return "a" + ECHO[c] + "b"
+
+
+for _c in ECHO:
+    VAL["str-e:" + _c] = (lambda c=_c: _echo_text(c))
+    VAL["list-e:" + _c] = (lambda c=_c: [_echo_text(c)])
+
+
 def _near_miss(section: Tuple[str, ...]) -> str:
     """a key at edit distance 1 of an allowed key of this section that is itself not allowed"""
     keys = TREE[section]
@@ -226,6 +282,10 @@ def _key_obj(section: Tuple[str, ...], token: str):
         return k
     if token == "?near":
         return _near_miss(section)
+    if token.startswith("?e:"):      # unknown key, far from every allowed key, ECHO member in the middle
+        return "zzz" + ECHO[token[3:]] + "unknown_key"
+    if token.startswith("?en:"):     # allowed key + ECHO member (within the suggestion radius for 1-2 code points)
+        return TREE[section][0] + ECHO[token[4:]]
     if token == "#5":
         return 5
     if token == "#null":
@@ -242,12 +302,30 @@ def dev_set(path, v):
     return {"op": "set", "path": list(path), "v": v}
 
 
-def dev_key(at, tok):
-    return {"op": "key", "at": list(at), "k": tok}
+def dev_key(at, tok, v=None):
+    d = {"op": "key", "at": list(at), "k": tok}
+    if v is not None:
+        d["v"] = v  # value carried by the added key (default 1)
+    return d
 
 
 def dev_root(v):
     return {"op": "root", "v": v}
+
+
+def echo_member(d) -> Optional[str]:
+    """the ECHO member a deviation carries (None for the deviations of the base alphabet)"""
+    if d["op"] == "key":
+        k = d["k"]
+        return k[3:] if k.startswith("?e:") else (k[4:] if k.startswith("?en:") else None)
+    v = d.get("v", "")
+    return v.split(":", 1)[1] if (v.startswith("str-e:") or v.startswith("list-e:")) else None
+
+
+def echo_suffix(devs) -> str:
+    """signature component: the class of echoed text the failing input carries"""
+    cl = set(ECHO_CLASS[m] for m in (echo_member(d) for d in devs) if m)
+    return ":echo-" + cl.pop() if len(cl) == 1 else ""
 
 
 def dev_parent(d) -> Tuple[str, ...]:
@@ -328,7 +406,7 @@ def build(devs):
             cur = root
             for k in d["at"]:
                 cur = cur.setdefault(k, {})
-            cur[_key_obj(tuple(d["at"]), d["k"])] = 1
+            cur[_key_obj(tuple(d["at"]), d["k"])] = VAL[d.get("v", "1")]()
     return root
 
 
@@ -342,6 +420,21 @@ def singles() -> List[List[dict]]:
             out.append([dev_key(sec, tok)])
     for v in ROOT_VALUES:
         out.append([dev_root(v)])
+    return out
+
+
+def echo_singles(deep: bool) -> List[List[dict]]:
+    """every single deviation that puts one member of ECHO into echoed text (key forms: all members at every
+    level; value forms: representatives in the quick tier, all members in the thorough tier)"""
+    out: List[List[dict]] = []
+    for sec in sorted(TREE):
+        for c in ECHO:
+            for pref, v in ECHO_KEY_FORMS:
+                out.append([dev_key(sec, pref + c, v)])
+    for p in NODES:
+        for c in (list(ECHO) if deep else ECHO_REPS):
+            out.append([dev_set(p, "str-e:" + c)])
+            out.append([dev_set(p, "list-e:" + c)])
     return out
 
 
@@ -377,6 +470,10 @@ def pair_groups() -> List[Tuple[str, Any, Any]]:
         items.append(("ver", list(p), None))
     for sec in sorted(TREE):
         items.append(("verkey", list(sec), None))
+    # (4) an echoed key next to a second deviation of the same dict: (allowed key + ECHO member) x sibling node
+    for sec in sorted(TREE):
+        for k in TREE[sec]:
+            items.append(("echo", list(sec), list(sec + (k,))))
     return items
 
 
@@ -401,6 +498,12 @@ def expand_group(item) -> List[List[dict]]:
         for v in VALUES:
             for vv in VALUES:
                 da, db = dev_set(a, v), dev_set(("version",), vv)
+                if compatible(da, db):
+                    out.append([da, db])
+    elif kind == "echo":
+        for c in ECHO:
+            for v in VALUES_REDUCED:
+                da, db = dev_key(a, "?en:" + c), dev_set(b, v)
                 if compatible(da, db):
                     out.append([da, db])
     elif kind == "verkey":
@@ -1181,7 +1284,7 @@ def _sig(kind, detail, devs):
     if kind == "c:raises-instead-of-returning":
         return "c:%s:raises-instead-of-returning" % detail
     if kind == "c:disagree":
-        return "c:disagree:%s" % detail
+        return "c:disagree:%s%s" % (detail, echo_suffix(devs))
     if kind == "d:range":
         return "d:range:%s" % detail
     return "%s:%s" % (kind, detail)
@@ -1325,6 +1428,32 @@ def cli_subset() -> List[List[dict]]:
         if k not in seen:
             seen.add(k)
             out.append(d)
+    return out + cli_echo_cases()
+
+
+ECHO_CLI_GROUPS = [
+    ["lf", "cr", "crlf", "vt", "ff", "fs", "gs", "rs"],   # line boundaries, ASCII
+    ["nel", "ls", "ps"],                                    # line boundaries beyond ASCII
+    ["us", "tab", "nbsp"],                                  # further whitespace cut points
+    ["lbrace", "fmt0", "pct", "bsn"],                       # formatting / escape metacharacters
+]
+
+
+def cli_echo_cases() -> List[List[dict]]:
+    """four inputs (one per class) that together carry every member of ECHO through the real CLI: each member sits in an unknown
+    key of its own dict level (levels taken round-robin from the key tree), so one subprocess per CLI form sees
+    one echoed message per member"""
+    if sorted(c for g in ECHO_CLI_GROUPS for c in g) != sorted(ECHO):
+        raise HarnessError("ECHO_CLI_GROUPS does not cover ECHO")
+    secs = sorted(TREE)
+    out = []
+    i = 0
+    for grp in ECHO_CLI_GROUPS:
+        devs = []
+        for c in grp:
+            devs.append(dev_key(secs[(5 * i) % len(secs)], "?e:" + c))
+            i += 1
+        out.append(devs)
     return out
 
 
@@ -1351,13 +1480,23 @@ def cli_check(devs, scratch):
     if yaml is None:
         return [], 0, "no-yaml"
     inp = build(devs)
+    text = back = None
     try:
         text = yaml.safe_dump(inp, default_flow_style=False, allow_unicode=True)
         back = yaml.safe_load(text)
     except Exception:
-        return [], 0, "not-yaml-expressible"
-    if canon(back) != canon(inp):
-        return [], 0, "not-yaml-roundtrippable"
+        text = None
+    if text is None or canon(back) != canon(inp):
+        # the emitter cannot express it (e.g. NEL inside a quoted scalar): try the JSON spelling of the same
+        # input, which the script's loader reads through the same YAML parser
+        was = "not-yaml-expressible" if text is None else "not-yaml-roundtrippable"
+        try:
+            text = json.dumps(inp, ensure_ascii=True, allow_nan=False)
+            back = yaml.safe_load(text)
+        except Exception:
+            return [], 0, was
+        if canon(back) != canon(inp):
+            return [], 0, was
     eff = back or {}  # the loader substitutes {} for a falsy document
     # reference through the API on the object the CLI will see
     try:
@@ -1374,6 +1513,7 @@ def cli_check(devs, scratch):
         f.write(text)
     env = dict(os.environ)
     env["PYTHONPATH"] = REPO
+    env["PYTHONIOENCODING"] = "utf-8"  # the locale of the CLI process is not part of the explored space
     env["CLEMATIS_LOG_DIR"] = os.path.join(d, "logs")
     env["CLEMATIS_SNAPSHOT_DIR"] = os.path.join(d, "snaps")
     env.pop("CLEMATIS_CONFIG", None)
@@ -1389,21 +1529,23 @@ def cli_check(devs, scratch):
     for form, hseed in plan:
         env["PYTHONHASHSEED"] = hseed
         try:
-            pr = subprocess.run(_cli_cmd(form), cwd=d, env=env, capture_output=True, text=True, timeout=120)
+            # bytes, not text=True: universal-newline decoding in the harness would itself turn CR into LF
+            pr = subprocess.run(_cli_cmd(form), cwd=d, env=env, capture_output=True, timeout=120)
         except subprocess.TimeoutExpired:
             raise HarnessError("CLI subprocess timed out (%s)" % form)
         n += 1
-        out, err, rc = pr.stdout, pr.stderr, pr.returncode
+        out, err, rc = pr.stdout.decode("utf-8", "replace"), pr.stderr.decode("utf-8", "replace"), pr.returncode
         tag = form.replace(" ", "")
+        esf = echo_suffix(devs)
         if "Traceback (most recent call last)" in err or "Traceback (most recent call last)" in out:
             last = [l for l in err.strip().split("\n") if l.strip()][-1:] or [""]
-            viols.append(("c:cli:%s:traceback" % tag, "`%s` on config %s ends in a Python traceback (%s), verdict through the API: %s" % (
+            viols.append((("c:cli:%s:traceback" % tag) + esf, "`%s` on config %s ends in a Python traceback (%s), verdict through the API: %s" % (
                 " ".join(_cli_cmd(form)[1:]), desc, last[0][:120], verdict)))
             continue
         strict = form.endswith("--strict")
         exp_rc = 1 if (verdict == "reject" or (strict and warns)) else 0
         if rc != exp_rc:
-            viols.append(("c:cli:%s:exit-code" % tag, "`%s` on config %s: exit %s, expected %s (API verdict %s, %d warnings); stdout %s stderr %s" % (
+            viols.append((("c:cli:%s:exit-code" % tag) + esf, "`%s` on config %s: exit %s, expected %s (API verdict %s, %d warnings); stdout %s stderr %s" % (
                 " ".join(_cli_cmd(form)[1:]), desc, rc, exp_rc, verdict, len(warns), _short(out, 80), _short(err, 80))))
             continue
         lines = [l for l in out.split("\n") if l.strip()]
@@ -1412,33 +1554,33 @@ def cli_check(devs, scratch):
                 try:
                     got = json.loads(out)
                 except Exception:
-                    viols.append(("c:cli:%s:stdout-not-json" % tag, "`validate --json` on %s: stdout is not JSON: %s" % (desc, _short(out, 100))))
+                    viols.append((("c:cli:%s:stdout-not-json" % tag) + esf, "`validate --json` on %s: stdout is not JSON: %s" % (desc, _short(out, 100))))
                     continue
                 if isinstance(got, dict) and "normalized" in got and "t1" not in got:
                     got = got["normalized"]
                 exp = json.loads(json.dumps(norm))
                 if canon(got) != canon(exp):
-                    viols.append(("c:cli:%s:normalized" % tag, "`validate --json` on %s prints a different normalised config than the API" % desc))
+                    viols.append((("c:cli:%s:normalized" % tag) + esf, "`validate --json` on %s prints a different normalised config than the API" % desc))
             else:
                 allmsg = set(m.strip() for m in (out + "\n" + err).split("\n"))
                 if not all(m in allmsg for m in errs):
-                    viols.append(("c:cli:%s:messages" % tag, "`validate --json` on %s does not report the API's messages %s: %s" % (
+                    viols.append((("c:cli:%s:messages" % tag) + esf, "`validate --json` on %s does not report the API's messages %s: %s" % (
                         desc, _short(errs, 100), _short(out + err, 120))))
             continue
         first = lines[0] if lines else ""
         if verdict == "reject":
             if first != "CONFIG INVALID":
-                viols.append(("c:cli:%s:first-line" % tag, "`%s` on %s: first stdout line %r, expected 'CONFIG INVALID'" % (form, desc, first)))
+                viols.append((("c:cli:%s:first-line" % tag) + esf, "`%s` on %s: first stdout line %r, expected 'CONFIG INVALID'" % (form, desc, first)))
             elif sorted(m.strip() for m in lines[1:]) != errs:
-                viols.append(("c:cli:%s:messages" % tag, "`%s` on %s: messages %s differ from the API's %s" % (form, desc, _short(lines[1:], 100), _short(errs, 100))))
+                viols.append((("c:cli:%s:messages" % tag) + esf, "`%s` on %s: messages %s differ from the API's %s" % (form, desc, _short(lines[1:], 100), _short(errs, 100))))
         elif strict and warns:
             if not first.startswith("CONFIG WARNINGS") or sorted(lines[1:]) != warns:
-                viols.append(("c:cli:%s:warnings" % tag, "`%s` on %s: stdout %s, expected the %d warnings" % (form, desc, _short(lines, 100), len(warns))))
+                viols.append((("c:cli:%s:warnings" % tag) + esf, "`%s` on %s: stdout %s, expected the %d warnings" % (form, desc, _short(lines, 100), len(warns))))
         else:
             if first != "OK":
-                viols.append(("c:cli:%s:first-line" % tag, "`%s` on %s: first stdout line %r, expected 'OK'" % (form, desc, first)))
+                viols.append((("c:cli:%s:first-line" % tag) + esf, "`%s` on %s: first stdout line %r, expected 'OK'" % (form, desc, first)))
             elif sorted(l for l in lines if l.startswith("W[")) != warns:
-                viols.append(("c:cli:%s:warnings" % tag, "`%s` on %s: warnings differ from the API's" % (form, desc)))
+                viols.append((("c:cli:%s:warnings" % tag) + esf, "`%s` on %s: warnings differ from the API's" % (form, desc)))
     shutil.rmtree(d, ignore_errors=True)
     return viols, n, None
 
@@ -1454,6 +1596,21 @@ def _cli_worker(chunk, st: Stats, scratch):
             continue
         st.add("cli_cases")
         st.distinct("outcomes", "cli:" + ("ok" if not viols else "differs"))
+        if viols and len(devs) > 1:
+            # minimise a multi-deviation CLI case: a single deviation that shows the same signature replaces it
+            base = lambda sg: sg.split(":echo-")[0]  # noqa: E731  (the echo suffix depends on the set of deviations)
+            left = set(base(sg) for sg, _ in viols)
+            for dv in devs:
+                if not left:
+                    break
+                v1, n1, sk1 = cli_check([dv], scratch)
+                st.add("transitions", n1)
+                st.add("cli_subprocesses", n1)
+                for sig, what in v1:
+                    if base(sig) in left:
+                        left.discard(base(sig))
+                        st.violation(sig, what, _case([dv], cli=True))
+            viols = [(sg, w) for sg, w in viols if base(sg) in left]
         for sig, what in viols:
             st.violation(sig, what, _case(devs, cli=True))
 
@@ -1478,10 +1635,16 @@ def _collect_accepted(accdir) -> List[List[dict]]:
 def run(run: Run) -> None:
     _engine_mods()
     run.rule = ("inputs = {} plus <=1 (quick) / <=2 (thorough) deviations over the v1 key tree of configs/validate.py "
-                "(set node to one of 17 values | add unknown / near-miss / non-string key at a dict level | non-dict root); "
+                "(set node to one of 17 values | add unknown / near-miss / non-string key at a dict level | non-dict root), plus "
+                "every single 'echo' deviation: user text that the messages echo (an unknown key at every dict level with value 1 "
+                "and -1, an allowed key + suffix at every level, every node set to a string and to a one-string list) carrying one "
+                "member of the text-layer alphabet ECHO = 11 Unicode line boundaries, 3 further whitespace cut points, 4 "
+                "format/escape metacharacters (keys: all 18 members; values: 5 representatives quick, all 18 thorough; "
+                "thorough also (allowed key + member) x sibling node x 8 values); "
                 "every input goes through 4 API shapes + script main() (+ --strict); non-trivial = a deviating input that is "
                 "rejected, or accepted with a normalised config different from the default one; every distinct accepted "
-                "normalised config runs 2 real turns on each of the worlds W0/W1/W2")
+                "normalised config runs 2 real turns on each of the worlds W0/W1/W2 (quick tier: of the accepted configs that carry an "
+                "ECHO member only those with CR, '{' or '%s'; thorough: all)")
     run.assume("only JSON/YAML-shaped inputs (dict/list/scalars, tuple as the only non-YAML key type); objects with __dict__ are not enumerated")
     run.assume("in-process script main() reads the input through a seam on its _load_config (no file); the real file/YAML path is covered by the CLI subprocess subset only")
     run.assume("clause (d) checks the constraints for which the validator documents an error message; out-of-range values that are documented as warnings only (t2.quality.fusion.alpha_semantic) and keys without any documented constraint (t2.owner_scope, surface_method, budgets.*, flags.*, t2.quality.lexical.bm25.{k1,b}) are not range-checked")
@@ -1490,6 +1653,14 @@ def run(run: Run) -> None:
     run.notes["tree_sections"] = len(TREE)
     run.notes["tree_nodes"] = len(NODES)
     run.notes["value_alphabet"] = VALUES
+    run.notes["echo_alphabet"] = {k: ascii(v) for k, v in ECHO.items()}
+    run.notes["echo_value_members"] = list(ECHO) if run.thorough else ECHO_REPS
+    run.assume("messages are compared as the multiset of LF-separated, whitespace-trimmed lines of each shape's error list / "
+               "ConfigError text / stdout: a message that itself contains LF counts as several lines in every shape alike, and "
+               "leading/trailing whitespace of a line is not compared")
+    run.assume("real-CLI subprocesses run with PYTHONIOENCODING=utf-8 and their stdout is decoded by the harness without newline "
+               "translation; the ECHO members reach the real CLI in 4 multi-key inputs only (all other echo inputs go through "
+               "the in-process main())")
 
     accdir = os.path.join(run.scratch, "acc")
     os.makedirs(accdir, exist_ok=True)
@@ -1527,9 +1698,12 @@ def run(run: Run) -> None:
     # ---- k <= 1
     S = singles()
     run.notes["singles"] = len(S)
+    SE = echo_singles(run.thorough)
+    run.notes["echo_singles"] = len(SE)
+    S = S + SE
     run.pmap(_validate_worker, S, extra=("devs", accdir, default_norm_c))
     _ph("k1_validated")
-    acc1 = _engine_domain(run, _collect_accepted(accdir))
+    acc1 = _engine_echo_domain(run, _engine_domain(run, _collect_accepted(accdir)))
     run.notes["distinct_accepted_configs_k1"] = len(acc1)
     run.pmap(_engine_worker, acc1, extra=(run.scratch, base_fail_types))
     done = set(json.dumps(d, sort_keys=True) for d in acc1)
@@ -1573,6 +1747,20 @@ def run(run: Run) -> None:
     run.notes["bound_k"] = 2 if run.thorough else 1
     if len(run.sets.get("outcomes", ())) < 2:
         raise HarnessError("vacuous run: fewer than two outcome classes")
+
+
+def _engine_echo_domain(run, acc):
+    """quick tier: of the accepted configs that carry an ECHO member, only those of ECHO_ENGINE_QUICK run turns"""
+    if run.thorough:
+        return acc
+    out = []
+    for devs in acc:
+        ms = [m for m in (echo_member(d) for d in devs) if m]
+        if ms and not all(m in ECHO_ENGINE_QUICK for m in ms):
+            run.add("engine_skipped_echo_quick")
+            continue
+        out.append(devs)
+    return out
 
 
 def _engine_domain(run, acc):
